@@ -539,6 +539,25 @@ func (g *Gen) drawDt(h int64) int64 {
 		}
 		return g.baseDtMs
 	}
+	// open finding (C17 commit-validator-record-removed): a block gap longer than the unbonding time right after a
+	// validator left the bonded set removes its record while its last votes are still in the commit, and every
+	// proposal is rejected from then on. Runs that avoid the known triggers keep gaps short while a validator unbonds.
+	capMs := int64(0)
+	if g.Avoid {
+		if v := g.C.View(); v != nil {
+			for _, val := range v.Validators() {
+				if val.IsUnbonding() {
+					capMs = g.C.Cfg.UnbondingSec * 1000 / 3
+				}
+			}
+		}
+	}
+	if capMs > 0 {
+		if g.baseDtMs < capMs {
+			return g.baseDtMs
+		}
+		return capMs
+	}
 	// aim at a deadline if one is near enough
 	if len(g.TimeAims) > 0 && r.Chance(g.P.Faults["aim_deadline"]) {
 		now := g.C.LastTime.UnixMilli()
